@@ -33,6 +33,7 @@ import (
 	"sort"
 	"strings"
 	"sync"
+	"sync/atomic"
 	"time"
 
 	"perkeep.org/pkg/blob"
@@ -144,7 +145,31 @@ func (l *liar) Fetch(ctx context.Context, br blob.Ref) (io.ReadCloser, uint32, e
 		})
 		<-g.open
 	}
-	return l.Storage.Fetch(ctx, br)
+	rc, size, err := l.Storage.Fetch(ctx, br)
+	if err != nil {
+		return rc, size, err
+	}
+	// Like the streams of network-backed stores (blobserver/remote, cloud stores), the stream of every
+	// replica of this check stays bound to the context its Fetch was called with.
+	ctxBoundStreams.Add(1)
+	return &ctxBody{ReadCloser: rc, ctx: ctx}, size, nil
+}
+
+// ctxBody is a fetched stream that stays bound to the context of the Fetch that opened it, as an HTTP
+// response body does: once that context is over, reads fail with the context's error.
+type ctxBody struct {
+	io.ReadCloser
+	ctx context.Context
+}
+
+var ctxBoundStreams, ctxBoundReads atomic.Int64
+
+func (b *ctxBody) Read(p []byte) (int, error) {
+	if err := b.ctx.Err(); err != nil {
+		return 0, err
+	}
+	ctxBoundReads.Add(1)
+	return b.ReadCloser.Read(p)
 }
 
 // wrongSize is the size a lying replica j reports for a blob of true size s.
